@@ -139,7 +139,11 @@ func (t *tr) eval(e ast.Expr) *val {
 			return &val{t: tInt, e: s, lit: true}
 		}
 		if e.Kind == token.STRING {
-			return &val{t: tString, e: e.Value}
+			v := &val{t: tString, e: e.Value}
+			if s, err := strconv.Unquote(e.Value); err == nil {
+				v.str, v.hasStr = s, true
+			}
+			return v
 		}
 	case *ast.SelectorExpr:
 		if id, ok := e.X.(*ast.Ident); ok && t.lookup(id.Name) == nil {
@@ -151,6 +155,11 @@ func (t *tr) eval(e ast.Expr) *val {
 			}
 		}
 		x := t.eval(e.X)
+		if t.g.loops && x.t.k == kStruct && !x.isNil {
+			if fv, ok := x.o.f[e.Sel.Name]; ok && x.o.whole == "" {
+				return fv // (also fields that are not pointers to integers)
+			}
+		}
 		if x.t.k != kStruct {
 			t.fail("field selection %s on a value of type %s", e.Sel.Name, x.t)
 		}
@@ -172,6 +181,9 @@ func (t *tr) eval(e ast.Expr) *val {
 			return t.copyStruct(x, &typ{k: kStruct, sd: x.t.sd, name: x.t.name, pkg: x.t.pkg})
 		case x.t.k == kArrPtr:
 			return &val{t: &typ{k: kArr, n: x.t.n, name: x.t.name, pkg: x.t.pkg}, e: t.read(x.c)}
+		case t.g.loops && x.t.k == kFe && !x.isNil:
+			// *a on an *ff.Element: a copy of the element's value
+			return &val{t: x.t, c: t.newCell(t.valueOf(x), "", oLocal)}
 		}
 		t.fail("unsupported dereference of %s", x.t)
 	case *ast.BinaryExpr:
@@ -216,6 +228,14 @@ func (t *tr) evalIdent(e *ast.Ident) *val {
 	}
 	if v := t.global(t.p.name, e.Name); v != nil {
 		return v
+	}
+	if t.g.loops {
+		if v := t.constIdent(e.Name); v != nil {
+			return v
+		}
+		if v := t.loopsGlobal(e.Name); v != nil {
+			return v
+		}
 	}
 	t.fail("unknown identifier %s", e.Name)
 	return nil
